@@ -90,6 +90,9 @@ func vpC17Typed(ti int) (Item, vpKey, bool) {
 	if !vpSetInstants(x, p, u, vpC17Decoy) {
 		return nil, k, false
 	}
+	if vpBool() {
+		return vpValueOf(x), k, true // the value (non-pointer) form
+	}
 	return x, k, true
 }
 
